@@ -111,6 +111,7 @@ func C17(cfg Cfg) int {
 		}(wk)
 	}
 	wg.Wait()
+	c17InFlight(run, cfg)
 	for _, need := range []string{"asserted:prepare/active", "asserted:prepare/not-active", "asserted:commit/not-active", "commit_succeeded", "asserted:execute/not-active", "asserted:abort/active", "expired_sessions_observed"} {
 		if run.Get(need) == 0 {
 			run.Inconclusive("never observed: " + need)
@@ -332,5 +333,64 @@ func c17Observe(c *rig.Cluster, w *c17World) {
 		if s := w.get(m.From, m.Account); s.contrib != nil {
 			s.contrib[m.To] = true
 		}
+	}
+}
+
+// c17InFlight: an execute is under way on an instance (its contribution to a peer is delayed in transit) when an
+// abort and a new prepare for the same name arrive at that instance.  However the three interleave, the new
+// generation starts with no contributions: a commit on it right afterwards must be refused, and nothing may be
+// stored.  (Replies that belong to the aborted generation must not count for the new one.)
+func c17InFlight(run *evid.Run, cfg Cfg) {
+	ids := []uint64{1, 2, 3}
+	c, err := rig.NewCluster(rig.ClusterOpts{Dir: cfg.Dir("c17-inflight"), IDs: ids})
+	if err != nil {
+		run.Inconclusive(err.Error())
+		return
+	}
+	defer c.Close()
+	peer := c.Endpoint(ids[0]).Name
+	rounds := cfg.N(8, 60)
+	for round := 0; round < rounds && run.NumViolations() < 5; round++ {
+		account := fmt.Sprintf("D/inflight-%d", round)
+		g := &manualGen{c: c, ids: ids, account: account, t: 2, as: peer}
+		for _, id := range ids {
+			if err := g.prepare(id); err != nil {
+				run.Inconclusive("in-flight scenario: prepare failed: " + err.Error())
+				return
+			}
+		}
+		// The first contribution instance 1 sends during its execute is held up in transit.
+		delay := time.Duration(150+50*(round%4)) * time.Millisecond
+		var held sync.Once
+		c.Hook = func(m *rig.Msg) rig.Action {
+			if m.Kind == "contribute" && m.From == ids[0] && m.Account == account {
+				act := rig.Action{}
+				held.Do(func() { act.Delay = delay })
+				return act
+			}
+			return rig.Action{}
+		}
+		execDone := make(chan error, 1)
+		go func() { execDone <- g.execute(ids[0]) }()
+		time.Sleep(40 * time.Millisecond)
+		_, abortErr := c.Inst[ids[0]].Stack.ReceiverH.Abort(rig.PeerCtx(peer), &pb.AbortRequest{Account: account})
+		prepErr := g.prepare(ids[0])
+		execErr := <-execDone
+		c.Hook = nil
+		_, _, commitErr := g.commit(ids[0], Root32(9))
+		run.Eval(1)
+		run.Count("inflight_rounds", 1)
+		run.Distinct(fmt.Sprintf("execute in flight: abort-ok=%v re-prepare-ok=%v execute-ok=%v commit-ok=%v", abortErr == nil, prepErr == nil, execErr == nil, commitErr == nil))
+		if abortErr == nil && prepErr == nil && commitErr == nil {
+			// A new generation was accepted after the abort; nobody has executed since.
+			run.Violate(fmt.Sprintf("commit for %s succeeded on instance %d for a generation prepared after an abort, to which no participant has contributed since (an execute of the aborted generation was still in flight)", account, ids[0]),
+				map[string]any{"account": account, "delay_ms": delay.Milliseconds(), "execute_error": fmt.Sprint(execErr)})
+		}
+		for _, id := range ids {
+			_, _ = c.Inst[id].Stack.ReceiverH.Abort(rig.PeerCtx(peer), &pb.AbortRequest{Account: account})
+		}
+	}
+	if run.Get("inflight_rounds") == 0 {
+		run.Inconclusive("in-flight scenario never ran")
 	}
 }
